@@ -674,19 +674,26 @@ structure Result where
   globalMetric : Nat       -- increments of the plugin metric
   maskMetrics : List Nat   -- increments of each mask's metric
 
+/-- the traversal part of `Do`: fast path over the global process_fields paths, or the whole
+    event with the field-masks tree -/
+def traverseRoot (impl : Impl) (c : Cfg) (re : Oracle) (root : JTree) : M (JTree × St) :=
+  let st0 : St := { counts := c.masks.map (fun _ => 0) }
+  if c.hasGlobalProcess && !c.hasMaskSpecific then pathLoop impl c re c.gpaths root st0
+  else
+    match root with
+    | .obj kvs => rootLoop impl c re c.fmRoot kvs.length 0 root st0
+    | _ => doNode impl c re root root c.fmRoot (fun _ v => v) st0
+
+/-- what `Do` does once it knows whether any mask applied -/
+def finish (c : Cfg) (r : JTree × St) : Result :=
+  let applied := r.2.applied
+  { root := if applied && !c.gField.isEmpty then setField r.1 c.gField c.gValue else r.1
+    globalMetric := if applied && c.metricOn then 1 else 0
+    maskMetrics := if applied then r.2.counts else c.masks.map (fun _ => 0) }
+
 /-- `(*Plugin).Do` -/
 def doEvent (impl : Impl) (c : Cfg) (re : Oracle) (root : JTree) : M Result := do
-  let st0 : St := { counts := c.masks.map (fun _ => 0) }
-  let r ←
-    if c.hasGlobalProcess && !c.hasMaskSpecific then pathLoop impl c re c.gpaths root st0
-    else
-      match root with
-      | .obj kvs => rootLoop impl c re c.fmRoot kvs.length 0 root st0
-      | _ => doNode impl c re root root c.fmRoot (fun _ v => v) st0
-  let applied := r.2.applied
-  let root' := if applied && !c.gField.isEmpty then setField r.1 c.gField c.gValue else r.1
-  pure { root := root'
-         globalMetric := if applied && c.metricOn then 1 else 0
-         maskMetrics := if applied then r.2.counts else c.masks.map (fun _ => 0) }
+  let r ← traverseRoot impl c re root
+  pure (finish c r)
 
 end FileD.Mask
